@@ -613,10 +613,11 @@ func (tr *FnTrans) run() {
 	for _, n := range gnames {
 		g := tr.w.ghosts[n]
 		gt := strings.ReplaceAll(g.Type, " ", "")
-		if !strings.HasPrefix(gt, "map[ref]") {
+		isLock := strings.HasPrefix(gt, "map[lock]")
+		if !strings.HasPrefix(gt, "map[ref]") && !isLock {
 			continue
 		}
-		es := ghostSort(gt[len("map[ref]"):])
+		es := ghostSort(gt[strings.Index(gt, "]")+1:])
 		zero := "0"
 		if es == sortBool {
 			zero = "false"
@@ -625,7 +626,11 @@ func (tr *FnTrans) run() {
 		}
 		vc.compDecl(ghostComp(n), arrSort(sortInt, es))
 		h0 := vc.hget(tr.cur, ghostComp(n))
-		vc.fact(fmt.Sprintf("(forall ((i Int)) (! (=> (>= i %s) (= (select %s i) %s)) :pattern ((select %s i))))", tr.entryAlloc, h0, zero, h0), "")
+		idx := "i"
+		if isLock {
+			idx = fmt.Sprintf("(div i %d)", lockStride) // typed lock address: owner ref * lockStride + uid
+		}
+		vc.fact(fmt.Sprintf("(forall ((i Int)) (! (=> (>= %s %s) (= (select %s i) %s)) :pattern ((select %s i))))", idx, tr.entryAlloc, h0, zero, h0), "")
 	}
 	tr.modComps = map[string]bool{}
 	tr.modByComp = map[string][]modTarget{}
